@@ -26,6 +26,31 @@ def registry():
     return reg
 
 
+def replay_record(prop, path):
+    """replay files that do not hold a behaviour of a generator machine: recorded traces are validated again by TLC,
+    other records (lexed texts, record-map pairs, TLC counterexamples) are shown; returns None for ordinary cases"""
+    with open(path) as f:
+        rec = json.load(f)
+    kind = rec.get("kind")
+    if kind in ("executor-trace", "sqlgen-trace"):
+        from . import exec_traces, relchecks
+        tr = relchecks.TlcRun()
+        if kind == "executor-trace":
+            rej = exec_traces.validate([rec["trace"]], tr, "replay of a recorded executor trace")
+        else:
+            rej = exec_traces.validate_sqlgen([rec["trace"]], tr, "replay of a recorded WITH-sequencing trace")
+        print("recorded trace, %d events; rejected: %s" % (len(rec["trace"]), rej.get(0)))
+        print(json.dumps(rec.get("event"), indent=1))
+        if rej:
+            print("VIOLATION property=%s replay=%s" % (prop, path))
+        return 1 if rej else 0
+    if "case" not in rec:
+        print(json.dumps({k: v for k, v in rec.items() if k not in ("a", "b", "trace")}, indent=1, default=str)[:6000])
+        print("VIOLATION property=%s replay=%s" % (prop, path))
+        return 1
+    return None
+
+
 def main(argv=None):
     ap = argparse.ArgumentParser()
     ap.add_argument("prop")
@@ -39,6 +64,9 @@ def main(argv=None):
     t0 = time.time()
     try:
         if args.replay:
+            rc_ = replay_record(args.prop, args.replay)
+            if rc_ is not None:
+                return rc_
             return reg[args.prop](args.tier, replay=args.replay)
         return reg[args.prop](args.tier)
     except common.MachineryError as ex:
